@@ -428,6 +428,24 @@ func EncodeCSVRow(r *core.Rand, cells []string, delim string) string {
 	return strings.Join(parts, delim)
 }
 
+// csvRow encodes a row for this kit. With replace_double_quotes every double quote becomes a single quote before parsing,
+// so no RFC-4180 quoting is possible: cells are emitted raw, with the characters that would need quoting replaced.
+func (k *Kit) csvRow(r *core.Rand, cells []string) string {
+	if !k.ReplaceDQ {
+		return EncodeCSVRow(r, cells, k.Delim)
+	}
+	out := make([]string, len(cells))
+	for i, c := range cells {
+		out[i] = strings.Map(func(x rune) rune {
+			if x == '\n' || x == '\r' || strings.ContainsRune(k.Delim, x) {
+				return '_'
+			}
+			return x
+		}, c)
+	}
+	return strings.Join(out, k.Delim)
+}
+
 // PadRunes pads/truncates s to exactly w runes.
 func PadRunes(s string, w int, fill rune) string {
 	rs := []rune(s)
@@ -469,128 +487,70 @@ type RenderOpts struct {
 	BOM               bool
 }
 
-// Render encodes the record list into input bytes.
+// Render encodes the record list into input bytes: Head + records + Tail.
 func (k *Kit) Render(r *core.Rand, recs []Rec, o RenderOpts) []byte {
-	nl := "\n"
-	if o.CRLF {
-		nl = "\r\n"
+	var sb []byte
+	sb = append(sb, k.Head(r, o)...)
+	for i, rec := range recs {
+		sb = append(sb, k.OneRec(r, rec, o, i == 0, i == len(recs)-1)...)
 	}
+	sb = append(sb, k.Tail(r, o)...)
+	return sb
+}
+
+func nlOf(o RenderOpts) string {
+	if o.CRLF {
+		return "\r\n"
+	}
+	return "\n"
+}
+
+// Head renders what precedes the first record.
+func (k *Kit) Head(r *core.Rand, o RenderOpts) []byte {
+	nl := nlOf(o)
 	var sb strings.Builder
 	if o.BOM {
 		sb.WriteString("\xef\xbb\xbf")
 	}
-	row := func(rec Rec) []string { return append([]string{rec.ID, rec.Num}, rec.F...) }
-	sep := func() {
-		if o.BlankLines && r.Chance(1, 3) {
-			sb.WriteString(nl)
-		}
-	}
 	switch k.Format {
 	case "csv", "csv2":
-		var lines []string
 		if k.Header {
-			lines = append(lines, EncodeCSVRow(r, k.colNames(), k.Delim))
-		}
-		for _, rec := range recs {
-			rw := row(rec)
-			for _, ls := range k.lines() {
-				var cells []string
-				if ls.tag != "" {
-					cells = append(cells, ls.tag)
-				}
-				for _, j := range ls.fields {
-					cells = append(cells, rw[j])
-				}
-				lines = append(lines, EncodeCSVRow(r, cells, k.Delim))
-			}
-		}
-		for i, l := range lines {
-			sb.WriteString(l)
-			if i < len(lines)-1 || !o.NoFinalTerminator {
-				sb.WriteString(nl)
-			}
-			sep()
-		}
-	case "fixed-length", "fixedlength2":
-		for i, rec := range recs {
-			rw := row(rec)
-			ls := k.lines()
-			for li, l := range ls {
-				sb.WriteString(l.tag)
-				for _, j := range l.fields {
-					sb.WriteString(PadRunes(rw[j], k.Widths[j], ' '))
-				}
-				if i < len(recs)-1 || li < len(ls)-1 || !o.NoFinalTerminator {
-					sb.WriteString(nl)
-				}
-			}
-			sep()
+			sb.WriteString(k.csvRow(r, k.colNames()) + nl)
 		}
 	case "edi":
-		seg := func(parts ...string) {
-			for i, p := range parts {
-				if i > 0 {
-					sb.WriteString(k.ElemDelim)
-				}
-				if i == 0 {
-					sb.WriteString(p)
-				} else {
-					sb.WriteString(EscapeEDI(p, k.Release, k.SegDelim, k.ElemDelim))
-				}
-			}
-			sb.WriteString(k.SegDelim)
-			if k.IgnoreCRLF && o.BlankLines && r.Chance(1, 2) {
-				sb.WriteString(nl)
-			}
-		}
-		seg("HDR", "h1")
-		for _, rec := range recs {
-			seg(append([]string{"REC"}, row(rec)...)...)
-		}
-		seg("TRL")
+		sb.WriteString("HDR" + k.ElemDelim + "h1" + k.SegDelim)
 	case "json":
-		var sbr strings.Builder
-		sbr.WriteString("[")
-		for i, rec := range recs {
-			if i > 0 {
-				sbr.WriteString(",")
-			}
-			if o.BlankLines {
-				sbr.WriteString(nl + "  ")
-			}
-			sbr.WriteString("{")
-			for j, c := range k.colNames() {
-				if j > 0 {
-					sbr.WriteString(",")
-				}
-				sbr.WriteString(EncodeJSONString(nil, c, false) + ":" + EncodeJSONString(nil, row(rec)[j], false))
-			}
-			sbr.WriteString("}")
-		}
-		if o.BlankLines {
-			sbr.WriteString(nl)
-		}
-		sbr.WriteString("]")
 		if k.TopArray {
-			sb.WriteString(sbr.String())
+			sb.WriteString("[")
 		} else {
-			sb.WriteString(`{"hdr":{"k":"v"},"recs":` + sbr.String() + `,"tail":1}`)
+			sb.WriteString(`{"hdr":{"k":"v"},"recs":[`)
+		}
+	case "xml":
+		sb.WriteString(`<root><hdr k="v">h</hdr>`)
+	}
+	return []byte(sb.String())
+}
+
+// Tail renders what follows the last record.
+func (k *Kit) Tail(r *core.Rand, o RenderOpts) []byte {
+	nl := nlOf(o)
+	var sb strings.Builder
+	switch k.Format {
+	case "edi":
+		sb.WriteString("TRL" + k.SegDelim)
+	case "json":
+		if o.BlankLines {
+			sb.WriteString(nl)
+		}
+		if k.TopArray {
+			sb.WriteString("]")
+		} else {
+			sb.WriteString(`],"tail":1}`)
 		}
 		if !o.NoFinalTerminator {
 			sb.WriteString(nl)
 		}
 	case "xml":
-		sb.WriteString(`<root><hdr k="v">h</hdr>`)
-		for _, rec := range recs {
-			if o.BlankLines {
-				sb.WriteString(nl + "  ")
-			}
-			sb.WriteString("<rec>")
-			for j, c := range k.colNames() {
-				fmt.Fprintf(&sb, "<%s>%s</%s>", c, escText(nil, row(rec)[j], false, 0), c)
-			}
-			sb.WriteString("</rec>")
-		}
 		if o.BlankLines {
 			sb.WriteString(nl)
 		}
@@ -598,6 +558,83 @@ func (k *Kit) Render(r *core.Rand, recs []Rec, o RenderOpts) []byte {
 		if !o.NoFinalTerminator {
 			sb.WriteString(nl)
 		}
+	}
+	return []byte(sb.String())
+}
+
+// OneRec renders one record (with the separator the format needs before / after it).
+func (k *Kit) OneRec(r *core.Rand, rec Rec, o RenderOpts, first, last bool) []byte {
+	nl := nlOf(o)
+	var sb strings.Builder
+	rw := append([]string{rec.ID, rec.Num}, rec.F...)
+	sep := func() {
+		if o.BlankLines && r.Chance(1, 3) {
+			sb.WriteString(nl)
+		}
+	}
+	switch k.Format {
+	case "csv", "csv2":
+		ls := k.lines()
+		for li, l := range ls {
+			var cells []string
+			if l.tag != "" {
+				cells = append(cells, l.tag)
+			}
+			for _, j := range l.fields {
+				cells = append(cells, rw[j])
+			}
+			sb.WriteString(k.csvRow(r, cells))
+			if !last || li < len(ls)-1 || !o.NoFinalTerminator {
+				sb.WriteString(nl)
+			}
+		}
+		sep()
+	case "fixed-length", "fixedlength2":
+		ls := k.lines()
+		for li, l := range ls {
+			sb.WriteString(l.tag)
+			for _, j := range l.fields {
+				sb.WriteString(PadRunes(rw[j], k.Widths[j], ' '))
+			}
+			if !last || li < len(ls)-1 || !o.NoFinalTerminator {
+				sb.WriteString(nl)
+			}
+		}
+		sep()
+	case "edi":
+		sb.WriteString("REC")
+		for _, p := range rw {
+			sb.WriteString(k.ElemDelim)
+			sb.WriteString(EscapeEDI(p, k.Release, k.SegDelim, k.ElemDelim))
+		}
+		sb.WriteString(k.SegDelim)
+		if k.IgnoreCRLF && o.BlankLines && r.Chance(1, 2) {
+			sb.WriteString(nl)
+		}
+	case "json":
+		if !first {
+			sb.WriteString(",")
+		}
+		if o.BlankLines {
+			sb.WriteString(nl + "  ")
+		}
+		sb.WriteString("{")
+		for j, c := range k.colNames() {
+			if j > 0 {
+				sb.WriteString(",")
+			}
+			sb.WriteString(EncodeJSONString(nil, c, false) + ":" + EncodeJSONString(nil, rw[j], false))
+		}
+		sb.WriteString("}")
+	case "xml":
+		if o.BlankLines {
+			sb.WriteString(nl + "  ")
+		}
+		sb.WriteString("<rec>")
+		for j, c := range k.colNames() {
+			fmt.Fprintf(&sb, "<%s>%s</%s>", c, escText(nil, rw[j], false, 0), c)
+		}
+		sb.WriteString("</rec>")
 	}
 	return []byte(sb.String())
 }
